@@ -21,7 +21,10 @@ def RFacts.ok (F : RFacts) : Bool :=
   F.lRoute && F.lBind && F.lRedirect && F.lViewBind && emptiesSlice F.lFlash &&
   emptiesSlice F.dMessages && F.dStatus &&
   F.lc.acquireResets && F.lc.releaseBeforePut && F.lc.handlerDefersRelease &&
-  F.lc.redirectReleaseBeforePut && F.lc.ctxReleaseReturnsRedirect && F.lc.flashDecodeWipes
+  F.lc.redirectReleaseBeforePut && F.lc.ctxReleaseReturnsRedirect && F.lc.flashDecodeWipes &&
+  -- structural facts the model takes for granted: pooled objects only leave / enter the pools through
+  -- Acquire* / Release*; the route-parameter slots are written before they are read (Values.lean)
+  F.lc.poolOpsConfined && F.lc.starWritesSlot0 && F.lc.getMatchWritesBeforeRead && F.lc.paramsReadsRouteSlots
 
 /-! ### clean pooled objects -/
 
@@ -314,7 +317,7 @@ theorem ok_fields {F : RFacts} (h : F.ok = true) :
     (F.lc.acquireResets = true ∧ F.lc.releaseBeforePut = true ∧ F.lc.handlerDefersRelease = true ∧
      F.lc.redirectReleaseBeforePut = true ∧ F.lc.ctxReleaseReturnsRedirect = true ∧ F.lc.flashDecodeWipes = true) := by
   simp only [RFacts.ok, Bool.and_eq_true] at h
-  obtain ⟨⟨⟨⟨⟨⟨⟨⟨⟨⟨⟨⟨⟨⟨⟨⟨⟨⟨⟨⟨⟨⟨a1, a2⟩, a3⟩, a4⟩, a5⟩, a6⟩, a7⟩, a8⟩, a9⟩, a10⟩, b1⟩, b2⟩, b3⟩, b4⟩, b5⟩, c1⟩, c2⟩, d1⟩, d2⟩, d3⟩, d4⟩, d5⟩, d6⟩ := h
+  obtain ⟨⟨⟨⟨⟨⟨⟨⟨⟨⟨⟨⟨⟨⟨⟨⟨⟨⟨⟨⟨⟨⟨⟨⟨⟨⟨a1, a2⟩, a3⟩, a4⟩, a5⟩, a6⟩, a7⟩, a8⟩, a9⟩, a10⟩, b1⟩, b2⟩, b3⟩, b4⟩, b5⟩, c1⟩, c2⟩, d1⟩, d2⟩, d3⟩, d4⟩, d5⟩, d6⟩, _⟩, _⟩, _⟩, _⟩ := h
   exact ⟨⟨a1, a2, a3, a4, a5, a6, a7, a8, a9, a10⟩, ⟨b1, b2, b3, b4, b5⟩, ⟨c1, c2⟩, ⟨d1, d2, d3, d4, d5, d6⟩⟩
 
 theorem reset_sim {F : RFacts} (ok : F.ok = true) (rq : Req) {c0 c0' : Ctx} (h : c0.Clean) (h' : c0'.Clean) :
